@@ -27,6 +27,7 @@ func checkC17(c *Ctx) {
 	c.checkVoteRepliesDistinct()
 	c.checkActiveNodesExact()
 	c.checkNeverDropped("C17.1c-rehash-signal-never-dropped", "Hub", "rehash", "the node adopts the new ring but keeps running the topics that moved away: two nodes serve one topic")
+	c.checkRingKeyedByRoutableName("C17.1d-ring-keyed-by-routable-name")
 }
 
 func (c *Ctx) checkRing() {
